@@ -271,7 +271,7 @@ func c03RunScenario(p *vreport.Part, sc hpScenario, replay bool, deadline time.T
 	opts := vrt.Options{Bound: sc.Bound, Delay: true, MaxSteps: 200000, Deadline: deadline, Trace: os.Getenv("VERIF_DEBUG") == "2" || os.Getenv("VERIF_TRACE_VIOL") != ""}
 	// coverage must not depend on machine speed: the search is cut by an execution cap
 	// (deterministic DFS order), the deadline is only a safety net
-	opts.MaxExecs = vreport.Pick(60000, 600000)
+	opts.MaxExecs = vreport.Pick(60000, 150000)
 	if os.Getenv("VERIF_DEBUG") != "" {
 		opts.MaxExecs = 1
 	}
@@ -369,6 +369,6 @@ func TestVerifC03Terminal(t *testing.T) {
 		n++
 	}
 	p.Note("scenarios", n)
-	p.End(complete, fmt.Sprintf("%d scenarios (this shard), all schedules of worker / upstream readers / timers / downstream reader with <=%d deviations from the default scheduler (delay bounding; quick tier: %d for the non-core scenarios); timers fire in virtual-deadline order; per-scenario execution cap %d", n, bound, bound-1, vreport.Pick(60000, 600000)),
+	p.End(complete, fmt.Sprintf("%d scenarios (this shard), all schedules of worker / upstream readers / timers / downstream reader with <=%d deviations from the default scheduler (delay bounding; quick tier: %d for the non-core scenarios); timers fire in virtual-deadline order; per-scenario execution cap %d", n, bound, bound-1, vreport.Pick(60000, 150000)),
 		"scenario grid {two-way,one-way}x{body}x{retry policy}x{per-try timeout}x{per-attempt upstream script}x{downstream disconnect} + connect failures, no route/no host/unhealthy, overflow, split reply; one evaluation = one complete execution of the real proxy stack under one schedule; distinct = distinct (scenario, observed downstream frames, upstream attempts, peer actions)")
 }
